@@ -168,7 +168,13 @@ def order(rep, prog):
     fn = prog.fn("cell::apply_internal_forces")
     fi = prog.index(fn)
     seq = []
-    for s in fn["body"]["c"]:
+    def flat(b):
+        for s_ in b.get("c", []):
+            if s_.get("k") == "CompoundStmt":
+                yield from flat(s_)         # a plain nested block (e.g. a helper inlined by the normaliser)
+            else:
+                yield s_
+    for s in flat(fn["body"]):
         e = strip(s)
         if fi.enclosing(e, ("IfStmt", "ForStmt")) is not None:
             continue
@@ -181,7 +187,10 @@ def order(rep, prog):
     names = [n for n, _ in seq]
     want = ["update_all_face_normals_and_areas", "area_=compute_area", "volume_=compute_volume", "update_target_volume", "update_pressure", "apply_pressure_on_surface"]
     pos = [names.index(w) if w in names else -1 for w in want]
-    if -1 not in pos and pos == sorted(pos):
+    # the data dependencies between the steps (a partial order: area_ and volume_, e.g., do not depend on each other)
+    deps = [("update_all_face_normals_and_areas", "area_=compute_area"), ("volume_=compute_volume", "update_pressure"), ("update_target_volume", "update_pressure"),
+            ("update_pressure", "apply_pressure_on_surface"), ("update_all_face_normals_and_areas", "apply_pressure_on_surface"), ("area_=compute_area", "apply_pressure_on_surface")]
+    if -1 not in pos and all(names.index(a) < names.index(b) for a, b in deps):
         rep.ok("C04.update-order", prog, fn, None, "order: %s" % " -> ".join(names))
     else:
         rep.violation("C04.update-order", prog, fn, None, "apply_internal_forces updates quantities out of order",
@@ -189,7 +198,10 @@ def order(rep, prog):
     # the time step handed to update_target_volume is the one of apply_internal_forces
     for n, e in seq:
         if n == "update_target_volume":
-            a = strip(call_args(e)[0])
+            from ..model import expand
+            a = strip(expand(fn, call_args(e)[0]))
+            while a.get("k") == "ParenExpr" and a.get("c"):
+                a = strip(a["c"][0])
             if not (a.get("k") == "DeclRefExpr" and a["ref"]["did"] == fn["params"][0]["did"]):
                 rep.violation("C04.update-order", prog, fn, e, "update_target_volume not given the time step", "%s must pass apply_internal_forces' time_step" % short(e, 60))
 
